@@ -237,9 +237,14 @@ func (env *Env) index(n *EIndex) Val {
 	if v.Typ == setType {
 		return boolVal(Select(v.T(), i.T()))
 	}
+	if v.Typ == ghostArrType {
+		return intVal(Select(v.T(), i.T()))
+	}
 	sfail("cannot index %s", typeName(v.Typ))
 	return Val{}
 }
+
+var ghostArrType types.Type = types.NewNamed(types.NewTypeName(0, nil, "ghostarr", nil), types.NewStruct(nil, nil), nil)
 
 // setType marks spec-level sets of Int (Array Int Bool).
 var setType types.Type = types.NewNamed(types.NewTypeName(0, nil, "set", nil), types.NewStruct(nil, nil), nil)
